@@ -113,6 +113,23 @@ def build_case(case):
             # cells: the n variables, the alias, and one cell per by-reference parameter (it holds the slot id in
             # every calling convention)
             return pt.Seq(*body, pt.Int(1)), n + 3
+        if placement == "reuse_blocks":
+            # a variable written in the entry block and read in a conditional arm, then written again behind the join
+            # and read back at once (the earlier read is not reachable from that second pair): every read returns
+            # the value last stored
+            vs = [mk(i) for i in range(n)]
+            cond = pt.Txn.fee() < pt.Int(1 << 40)
+            body = []
+            for i, v in enumerate(vs):
+                w = pt.ScratchVar(pt.TealType.uint64)
+                body += [v.store(M(i)),
+                         # (reads in operand positions where a value left behind by a deleted store cannot stand in)
+                         pt.If(cond).Then(pt.Seq(w.store(M(i) + pt.Int(5)), pt.Assert(w.load() - v.load() == pt.Int(5)),
+                                                 pt.Assert(v.load() + v.load() == M(i) + M(i)),
+                                                 pt.Assert(w.load() - pt.Int(5) == v.load()))),
+                         v.store(M(i) + pt.Int(1)), pt.Assert(v.load() == M(i) + pt.Int(1))]
+            body += [pt.Assert(v.index() == pt.Int(req[i])) for i, v in enumerate(vs) if i in req]
+            return pt.Seq(*body, pt.Int(1)), 2 * n
         if placement == "abi_byref":
             # a variable passed BY REFERENCE to an ABI-returning subroutine (keyword-only output) behind / in front of
             # an ABI argument: the callee's write lands in that variable, the neighbours keep their values
@@ -355,6 +372,7 @@ def run(tier):
                 for cfg in cfgs:
                     items.append({"n": n, "req": req, "placement": "twin_blocks", "kind": "scratchvar", "cfg": cfg.to_json()})
                     items.append({"n": n, "req": req, "placement": "abi_byref", "kind": "scratchvar", "cfg": cfg.to_json()})
+                    items.append({"n": n, "req": req, "placement": "reuse_blocks", "kind": "scratchvar", "cfg": cfg.to_json()})
         if n <= 130:
             for req in ("none", "top", "both", "low_block", "mid_block", "interleaved"):
                 for kind in ("scratchvar", "dyn"):
